@@ -36,7 +36,7 @@ def run(ctx):
             cfg = (f'SPECIFICATION FairSpec\nCONSTANTS N = {N} P = {P} '
                    f'FaultKs = {{{", ".join(str(i) for i in range(1, N + 1))}}} '
                    'FaultPoints = {"before", "mid", "after"} FaultModes = {"kill", "exit3", "raise"} '
-                   'Fixed = FALSE\nINVARIANT TypeOK\nINVARIANT FailNeverReturns\n'
+                   'Fixed = TRUE\nINVARIANT TypeOK\nINVARIANT FailNeverReturns\n'
                    'INVARIANT RaisedHasNoResults\nPROPERTY FaultLeadsToRaise\nCHECK_DEADLOCK FALSE\n')
             res = run_tlc('WorkerPool', cfg_text=cfg, timeout=3600)
             ctx.add_tlc(f'WorkerPool_faults_N{N}_P{P}', res)
